@@ -48,7 +48,10 @@ struct Inner {
 
 pub struct Sched {
     m: Mutex<Inner>,
+    /// the scheduler waits here
     cv: Condvar,
+    /// worker `t` waits on `wcv[t]` (one wake-up per hand-over instead of a broadcast)
+    wcv: Vec<Condvar>,
 }
 
 thread_local! {
@@ -62,6 +65,7 @@ impl Sched {
         Arc::new(Sched {
             m: Mutex::new(Inner { turn: None, st: vec![St::Running; n] }),
             cv: Condvar::new(),
+            wcv: (0..n).map(|_| Condvar::new()).collect(),
         })
     }
 
@@ -89,7 +93,7 @@ impl Sched {
             assert!(matches!(g.st[t], St::AtYield(_)), "grant to a non-parked worker");
             g.st[t] = St::Running;
             g.turn = Some(t);
-            self.cv.notify_all();
+            self.wcv[t].notify_one();
         }
         let st = self.quiesce()?;
         Ok(st[t])
@@ -112,9 +116,9 @@ impl Sched {
         if g.turn == Some(t) {
             g.turn = None;
         }
-        self.cv.notify_all();
+        self.cv.notify_one();
         while g.turn != Some(t) {
-            g = self.cv.wait(g).unwrap();
+            g = self.wcv[t].wait(g).unwrap();
         }
     }
 
@@ -124,7 +128,7 @@ impl Sched {
         if g.turn == Some(t) {
             g.turn = None;
         }
-        self.cv.notify_all();
+        self.cv.notify_one();
     }
 }
 
